@@ -1,6 +1,7 @@
 //! vvm: VerifVM (a real MMTk binding used only by the verification harness) and the
 //! line-protocol components that drive real mmtk-core code.
 pub mod vm;
+pub mod rt;
 pub mod comp;
 pub mod proto;
 
